@@ -542,7 +542,7 @@ func (h t2txHarness) Run(spec any) (res verifsim.RunResult) {
 		v("hang", "t2:not-returned", fmt.Sprintf("real QUIC, healthy peers: sender returned=%v receiver returned=%v after %v simulated", sendRet, recvRet, simElapsed))
 	case sendErr != nil || recvErr != nil:
 		zf := ""
-		if len(sp.Files) == 0 {
+		if len(sp.Files) == 0 && len(sp.Sel) == 0 {
 			zf = ";no-files-in-manifest"
 		}
 		if sendErr == nil && recvErr != nil && strings.Contains(recvErr.Error(), "no recent network activity") {
